@@ -317,6 +317,12 @@ func runParent(def *CheckDef, tier string, seed int64, scratch string, nw int) i
 		"inconclusive_cases":    inconclusive,
 		"workers":               nw,
 	}
+	if rs := os.Getenv("VERIF_RACE_SUMMARY"); rs != "" {
+		var v interface{}
+		if json.Unmarshal([]byte(rs), &v) == nil {
+			cov["race_detector_tripwire"] = v
+		}
+	}
 	ev := Evidence{PropertyID: def.ID, Tier: tier, Seed: seed, Level: "exploration", Coverage: cov,
 		Assumptions: def.Assumptions, WallS: time.Since(start).Seconds(), Violations: int(totalViol), Verdict: verdict}
 	if newV == 0 && totalViol > 0 {
